@@ -22,6 +22,9 @@ import (
 type VCall struct {
 	N     int `json:"n"`     // number of variadic arguments
 	Depth int `json:"depth"` // the native re-enters the script this many levels deep (each level calls the native again)
+	// Spread: 0 the arguments are written out; 1 a slice literal is spread; 2 a slice variable is spread; 3 (N = 0) a slice
+	// variable that was never assigned is spread; 4 (N = 0) the nil result of a function is spread
+	Spread int `json:"spread,omitempty"`
 }
 
 type VCase struct {
@@ -33,7 +36,14 @@ type VCase struct {
 func genVCase(rt *rapid.T) *VCase {
 	c := &VCase{Fixed: rx.Range(rt, "fixed", 0, 2), Loop: rapid.Bool().Draw(rt, "loop")}
 	for i := rx.Range(rt, "ncalls", 2, 6); i > 0; i-- {
-		c.Calls = append(c.Calls, VCall{N: rx.Pick(rt, "nvargs", 0, 1, 2, 3, 5, 7, 8, 9, 12), Depth: rx.Pick(rt, "depth", 0, 0, 1, 2)})
+		vc := VCall{N: rx.Pick(rt, "nvargs", 0, 1, 2, 3, 5, 7, 8, 9, 12), Depth: rx.Pick(rt, "depth", 0, 0, 1, 2)}
+		if rx.Chance(rt, "spread", 1, 3) {
+			vc.Spread = rx.Range(rt, "spreadform", 1, 4)
+			if vc.Spread >= 3 {
+				vc.N = 0
+			}
+		}
+		c.Calls = append(c.Calls, vc)
 	}
 	return c
 }
@@ -84,6 +94,7 @@ func checkVCase(c *VCase) (f *ev.Failure) {
 	}
 	// the nested calls pass three arguments derived from their id
 	src.WriteString("import \"host\"\n")
+	src.WriteString("func none() []int {\n\treturn nil\n}\n")
 	fmt.Fprintf(&src, "func again(id int, d int) int {\n\treturn host.keep(id, d, %sid*100, id*100+1, id*100+2)\n}\n", fixed)
 	want := map[int][]string{}
 	var expectNested func(id, d int)
@@ -103,7 +114,20 @@ func checkVCase(c *VCase) (f *ev.Failure) {
 		for i := 0; i < c.Fixed; i++ {
 			parts = append(parts, fmt.Sprintf("\"f%d\"", i))
 		}
-		parts = append(parts, al...)
+		switch vc.Spread {
+		case 0:
+			parts = append(parts, al...)
+		case 1:
+			parts = append(parts, "[]int{"+strings.Join(al, ", ")+"}...")
+		case 2:
+			fmt.Fprintf(&src, "%sxs%d := []int{%s}\n", ind, id, strings.Join(al, ", "))
+			parts = append(parts, fmt.Sprintf("xs%d...", id))
+		case 3:
+			fmt.Fprintf(&src, "%svar ns%d []int\n", ind, id)
+			parts = append(parts, fmt.Sprintf("ns%d...", id))
+		default:
+			parts = append(parts, "none()...")
+		}
 		fmt.Fprintf(&src, "%sprintln(host.keep(%s))\n", ind, strings.Join(parts, ", "))
 	}
 	var wantOut strings.Builder
@@ -154,6 +178,9 @@ func TestVariadicNatives(t *testing.T) {
 		nested := false
 		for _, vc := range c.Calls {
 			nested = nested || vc.Depth > 0
+			if vc.Spread > 0 {
+				r.Class(fmt.Sprintf("variadic_native_called_with_spread_form=%d", vc.Spread))
+			}
 		}
 		if nested {
 			r.Nontrivial(ev.HashJSON(c))
